@@ -187,7 +187,9 @@ MODELS = {"rpms": RpmsModel, "modules": ModulesModel, "extra": ExtraFilesModel}
 
 RPMS_INVALID = ["unknown-arch", "source-arch", "nosrc-arch", "case-arch", "unknown-category", "absolute-path", "empty-path",
                 "missing-epoch", "unparsable-no-colon", "unparsable-with-colon", "srpm-given-for-source", "srpm-missing",
-                "source-category-binary-arch", "binary-category-source-arch", "srpm-missing-epoch", "srpm-unparsable"]
+                "source-category-binary-arch", "binary-category-source-arch", "srpm-missing-epoch", "srpm-unparsable",
+                # two rules broken by one call (each rule alone is covered above)
+                "source-category-binary-arch-with-srpm", "binary-category-source-arch-no-srpm", "two-invalid-arguments"]
 UNPARSABLE_NO_COLON = ["", "nodash", "one-dash.x86_64", "nodashnodot", "a-b-c"]
 UNPARSABLE_WITH_COLON = ["foo:bar", ":", "a-1:b-c", "0:nodash.x86_64", "x-1:2"]
 
@@ -247,6 +249,28 @@ def gen_rpms_op(rng, pool, invalid=None):
         args.update({"nevra": render_nevra(rng, parts), "category": rng.choice(["binary", "debug"]),
                      "srpm_nevra": render_nevra(rng, parts)})
         meta.update({"nevra_parts": dict(parts), "srpm_parts": dict(parts)})
+    elif invalid == "source-category-binary-arch-with-srpm":
+        parts, _ = rng.choice(pkg["subs"])
+        args.update({"nevra": render_nevra(rng, parts), "category": "source", "srpm_nevra": render_nevra(rng, pkg["src"])})
+        meta.update({"nevra_parts": dict(parts), "srpm_parts": dict(pkg["src"])})
+    elif invalid == "binary-category-source-arch-no-srpm":
+        parts = pkg["src"]
+        args.update({"nevra": render_nevra(rng, parts), "category": rng.choice(["binary", "debug"]), "srpm_nevra": None})
+        meta.update({"nevra_parts": dict(parts), "srpm_parts": None})
+    elif invalid == "two-invalid-arguments":
+        first = rng.choice(["unknown-arch", "source-arch", "unknown-category", "absolute-path", "empty-path", "missing-epoch",
+                            "srpm-missing", "source-category-binary-arch", "binary-category-source-arch"])
+        op = gen_rpms_op(rng, pool, first)
+        args, meta = op["args"], op["meta"]
+        second = rng.choice(["arch", "category", "path"])
+        if second == "arch":
+            args["arch"] = rng.choice(["src", "nosrc", "x86-64", ""])
+        elif second == "category":
+            args["category"] = rng.choice(["bin", "", "package"])
+        else:
+            args["path"] = rng.choice(["", "/abs/x.rpm"])
+        meta["invalid"] = invalid
+        return {"kind": "rpms", "args": args, "meta": meta}
     elif invalid in ("srpm-missing-epoch", "srpm-unparsable"):
         parts, category = rng.choice(pkg["subs"])
         args.update({"nevra": render_nevra(rng, parts), "category": category})
